@@ -9,6 +9,7 @@ KNOWN = [1, 6, 7, 8, 0x33, 0x2b603742, 0x2b603743]
 RESERVED = [0, 2, 3, 4, 5]
 GREASE_BOUND = 0x210842108421083
 CHROME = 0xFFD277
+DEFAULTS = {'mfs': V62 - 1, 'grease': 1, 'wt': 0, 'ec': 0, 'dg': 0, 'wtmax': 0}
 
 
 def vi(x, l=None):
@@ -113,6 +114,55 @@ class P(Property):
             'non-trivial = cfg: all; st.ins: at least one insert; st.dec/rx: the payload holds at least one complete entry')
 
     # ---- generators
+    def quantifier(self, role):
+        bools = list(itertools.product([0, 1], repeat=2 if role == 'c' else 3))
+        wtmaxs = [0] if role == 'c' else MAGS
+        for grease in (0, 1):
+            for mfs in MAGS:
+                for wtmax in wtmaxs:
+                    for bs in bools:
+                        if role == 'c':
+                            wt, (ec, dg) = 0, bs
+                        else:
+                            wt, ec, dg = bs
+                        yield (grease, mfs, wt, ec, dg, wtmax)
+
+    def calls_for(self, rng, role, grease, mfs, wt, ec, dg, wtmax):
+        vals = {'grease': grease, 'mfs': mfs, 'ec': ec, 'dg': dg}
+        if role == 's':
+            vals.update({'wt': wt, 'wtmax': wtmax})
+        calls = []
+        for k, v in vals.items():
+            if v == DEFAULTS[k] and rng.random() < 0.5:
+                continue
+            calls.append((k, v))
+        rng.shuffle(calls)
+        if calls and rng.random() < 0.3:
+            k, v = rng.choice(calls)
+            other = (1 - v) if k in ('grease', 'wt', 'ec', 'dg') else rng.choice([x for x in MAGS if x != v])
+            calls.insert(rng.randrange(0, calls.index((k, v)) + 1), (k, other))
+        return ','.join('%s=%d' % c for c in calls) or '-'
+
+    def long_payloads(self, rng, tier):
+        """10..200 entries, mostly unknown and grease identifiers (each at most once for the known ones), known ones at
+        the end; and payloads beyond 255 and 16383 bytes (2- and 4-byte frame length)"""
+        outs = []
+        def unknown():
+            while True:
+                i = rng.choice([33 + 31 * rng.randrange(GREASE_BOUND), rng.getrandbits(rng.choice([6, 14, 30, 62])), CHROME])
+                if i not in KNOWN and i not in RESERVED:
+                    return i
+        sizes = [10, 16, 17, 18, 33, 64, 100, 200] + [rng.randint(10, 200) for _ in range(6 if tier == 'quick' else 200)]
+        for n in sizes:
+            pairs = [(unknown(), rng.getrandbits(rng.choice([6, 14, 30, 62]))) for _ in range(n)]
+            tail = [(k, rng.choice([0, 1, 100, V62 - 1])) for k in rng.sample(KNOWN, rng.randint(1, 7))]
+            outs.append(payload_of(pairs + tail, rng, rng.random() < 0.5))
+            outs.append(payload_of(tail[:1] + pairs + tail[1:]))
+        for n in ([1100] if tier == 'quick' else [1100, 1500, 3000]):
+            pairs = [(33 + 31 * rng.randrange(2 ** 40, GREASE_BOUND), rng.getrandbits(62) | (1 << 61)) for _ in range(n)]
+            outs.append(payload_of(pairs + [(6, 100)]))
+        return outs
+
     def gen_pairs(self, rng):
         n = rng.choice([0, 1, 1, 2, 3, 4, 5, 6, 7, 8, 9])
         pairs = []
@@ -161,24 +211,26 @@ class P(Property):
 
     def cases(self, tier, rng):
         out = ['dflt']
-        # ---- every builder configuration of the quantifier, over the real setup path
+        # ---- every builder configuration of the quantifier, over the real setup path; the setters are called in a
+        # random order, setters whose value is the default are sometimes left out, sometimes a setter is called twice
         for role in ('c', 's'):
-            bools = list(itertools.product([0, 1], repeat=2 if role == 'c' else 3))
-            wtmaxs = [0] if role == 'c' else MAGS
-            for grease in (0, 1):
-                for mfs in MAGS:
-                    for wtmax in wtmaxs:
-                        for bs in bools:
-                            if role == 'c':
-                                wt, (ec, dg) = 0, bs
-                            else:
-                                wt, ec, dg = bs
-                            g = rng.choice([0, 1, 2, 1337, GREASE_BOUND - 1, rng.randrange(GREASE_BOUND)])
-                            if tier == 'quick' and role == 's' and rng.random() < 0.5 and not (mfs >= V62 or wtmax >= V62):
-                                q = 0
-                            else:
-                                q = rng.choice([0, 0, 1, 2, 3, 7])
-                            out.append('cfg %s %d %d %d %d %d %d %d %d' % (role, grease, mfs, wt, ec, dg, wtmax, g, q))
+            for (grease, mfs, wt, ec, dg, wtmax) in self.quantifier(role):
+                g = rng.choice([0, 1, 2, 1337, GREASE_BOUND - 1, rng.randrange(GREASE_BOUND)])
+                if tier == 'quick' and role == 's' and rng.random() < 0.5 and not (mfs >= V62 or wtmax >= V62):
+                    q = 0
+                else:
+                    q = rng.choice([0, 0, 1, 2, 3, 7])
+                out.append('cfg %s %s %d %d' % (role, self.calls_for(rng, role, grease, mfs, wt, ec, dg, wtmax), g, q))
+        # each setter alone, and every ordered pair of setters, with non-default values
+        nd = {'mfs': 77, 'grease': 0, 'wt': 1, 'ec': 1, 'dg': 1, 'wtmax': 9}
+        for role, names in (('c', ['mfs', 'grease', 'ec', 'dg']), ('s', ['mfs', 'grease', 'wt', 'ec', 'dg', 'wtmax'])):
+            out.append('cfg %s - 5 0' % role)
+            for a in names:
+                out.append('cfg %s %s=%d 5 0' % (role, a, nd[a]))
+                for b in names:
+                    if a != b:
+                        out.append('cfg %s %s=%d,%s=%d 5 0' % (role, a, nd[a], b, nd[b]))
+                        out.append('cfg %s %s=%d,%s=%d,%s=%d 5 0' % (role, a, nd[a], b, nd[b], a, DEFAULTS[a]))
         # ---- insert sequences
         out.append('st.ins -')
         for k in range(1, 8):
@@ -237,7 +289,8 @@ class P(Property):
                 payloads.append(p[:t])
         for _ in range(2000 if tier == 'quick' else 200000):
             payloads.append(bytes(rng.getrandbits(8) for _ in range(rng.randint(3, 14))))
-        for p in payloads:
+        longs = self.long_payloads(rng, tier)
+        for p in payloads + longs:
             out.append(self.dec_case(rng, p))
         # non-contiguous buffers: all 1- and 2-cut splittings of the hand-written payloads and of a sample of the others
         for p in structured[:len(hand) * 2:(3 if tier == 'quick' else 1)] + structured[len(hand) * 2::(150 if tier == 'quick' else 15)]:
@@ -246,19 +299,41 @@ class P(Property):
             for t in (len(p) // 2, len(p) - 1):
                 if 0 < t < len(p) <= 24:
                     out += self.all_cuts(rng, p[:t])
-        # ---- the same through a real connection (a sample: the executor costs more than the codec)
+        # ---- the same through a real connection whose own configuration is drawn from the cfg quantifier; both roles
         rxs = [b''] + structured[:len(hand) * 2]
         for p in structured[:len(hand) * 2]:
             for t in range(1, len(p), 2):
                 rxs.append(p[:t])
-        rxs += structured[len(hand) * 2::(6 if tier == 'quick' else 3)]
-        for p in rxs:
+        rxs += structured[len(hand) * 2::(12 if tier == 'quick' else 3)] + longs[::(4 if tier == 'quick' else 1)]
+        quants = {r: [x for x in self.quantifier(r) if x[1] < V62 and x[5] < V62] for r in 'cs'}
+        def rx_case(role, p, tail, chunk):
             n = len(p)
             form = rng.choice([0] + [l for l in (1, 2, 4, 8) if n < 2 ** (8 * l - 2)])
-            out.append('rx %s %d %s %d' % (rng.choice('cs'), form, p.hex() or '-', rng.choice([0, 0, 1, 2, 5])))
+            calls = self.calls_for(rng, role, *rng.choice(quants[role]))
+            return 'rx %s %s %d %s %s %d' % (role, calls, form, p.hex() or '-', tail.hex() or '-', chunk)
+        for p in rxs:
+            for role in 'cs':
+                out.append(rx_case(role, p, b'', rng.choice([0, 0, 1, 2, 5]) if len(p) < 2000 else rng.choice([0, 1000])))
+        # a second SETTINGS frame (same delivery and later), well-formed or not
+        for p in ([b'', payload_of([(6, 100)]), payload_of([(6, 1), (33, 2), (0x33, 1)])] + structured[len(hand) * 2::(300 if tier == 'quick' else 30)]):
+            for tail in (b'\x04\x00', b'\x04\x02\x06\x01', b'\x04\x02\x08\x01\x04\x00', b'\x04\x01\x06', b'\x04\x02\x02\x00',
+                         b'\x04' + vi(len(p), 4) + p):
+                for role in 'cs':
+                    out.append(rx_case(role, p, tail, rng.choice([0, 0, 1, 3])))
         return out
 
     # ---- judging
+    @staticmethod
+    def grease_on(case):
+        g = DEFAULTS['grease']
+        calls = case.split()[2]
+        if calls != '-':
+            for c in calls.split(','):
+                k, v = c.split('=')
+                if k == 'grease':
+                    g = int(v)
+        return g == 1
+
     def canon_cfg(self, case, out):
         w = out.split()
         if not w:
@@ -274,7 +349,7 @@ class P(Property):
         pairs = parse_control_start(b)
         if pairs is None:
             return 'ok unparsable ' + w[1]
-        grease_on = case.split()[2] == '1'
+        grease_on = self.grease_on(case)
         gpos = [k for k, (i, _) in enumerate(pairs) if is_grease(i)]
         rest = [p for k, p in enumerate(pairs) if k not in gpos] if grease_on else pairs
         return 'ok len=%d grease@%s %s' % (len(b) if not grease_on else -1, ','.join(map(str, gpos)) if grease_on else '-',
@@ -289,16 +364,23 @@ class P(Property):
             return self.canon_cfg(case, out)
         return out
 
+    @staticmethod
+    def close_ok(w):
+        """`err CODE close=CxN`: the connection was closed and the code the peer sees is the code handed to the application"""
+        return len(w) >= 3 and w[2].startswith('close=') and w[2][6:].split('x')[0] == w[1]
+
     def spec_ok(self, case, out, spec):
         if spec is None:
             return True
         fam = case.split()[0]
+        w = out.split()
+        if fam == 'rx' and w and w[0] == 'err' and spec.split()[0] == 'err':
+            return match_words(out, spec) and self.close_ok(w)
         if fam != 'cfg':
             return match_words(self.canon(case, out), spec)
-        w = out.split()
         sw = spec.split()
         if sw[0] == 'err':
-            return w[:2] == sw[:2]
+            return w[:2] == sw[:2] and self.close_ok(w)
         # sw = ok <grease> id:v,id:v,...
         if len(w) != 2 or w[0] != 'ok':
             return False
@@ -328,7 +410,7 @@ class P(Property):
         if w[0] == 'st.ins':
             return case if w[1] != '-' else None
         if w[0] in ('st.dec', 'rx'):
-            h = w[2] if w[0] == 'st.dec' else w[3]
+            h = w[2] if w[0] == 'st.dec' else w[4]
             if h == '-':
                 return None
             b = bytes.fromhex(h)
